@@ -151,12 +151,14 @@ Definition parse_ais_sentence (c : cfg) (q : quirks) (data : list N) : B sentenc
 (* opt(delimited(tag("\\"), take_until("\\"), tag("\\"))) *)
 Definition skip_tag_block (line : list N) : list N :=
   match line with
-  | 92 :: r =>
-    match take_until 92 r with
-    | Some (_, 92 :: r') => r'
-    | _ => line
-    end
-  | _ => line
+  | x :: r =>
+    if x =? 92 then
+      match take_until 92 r with
+      | Some (_, _ :: r') => r'      (* take_until stops in front of the closing backslash *)
+      | _ => line
+      end
+    else line
+  | [] => line
   end.
 
 (* parse_nmea_sentence: (raw, sentence, checksum) *)
